@@ -13,6 +13,10 @@ field through its `Add*` methods with the path walked so far in `keyPrefix`:
   filter encoder again (`logObjectMarshalerWrapper`), so the fields inside meet their own filters.
   (Before fix 5e69734 a kept object went to the wrapped encoder directly: `encNodeOld`.)
 
+* `OpenNamespace(key)` (a `zap.Namespace` field): forwarded to the wrapped encoder, which nests every later
+  field of that level under `key`; `keyPrefix` is not extended, so those fields are still looked up under
+  the path WITHOUT the namespace.
+
 `Fields` is a Go map from path to filter: an association list with distinct paths here.
 -/
 import CaddyModel.C20.Model
@@ -22,6 +26,7 @@ namespace CaddyModel.C20
 inductive Node where
   | leaf (key : Bytes) (v : FVal)          -- string, LoggableStringArray or any other scalar field
   | obj (key : Bytes) (kids : List Node)   -- an ObjectMarshaler field
+  | ns (key : Bytes)                       -- zap.Namespace: every LATER field of the same level is nested under `key`
 deriving Repr
 
 abbrev FCfg := List (Bytes × Filter)
@@ -67,6 +72,8 @@ def encNode (o : Oracles) (cfg : FCfg) (pre : Bytes) : Node → List Node
     match lookupF cfg (pre ++ k) with
     | none => [.obj k (encList o cfg (pre ++ k ++ pathSep) kids)]
     | some f => emitObj (applyFilter o f ⟨k, .other objTag⟩) (encList o cfg (pre ++ k ++ pathSep) kids)
+  -- `OpenNamespace(key)`: `fe.wrapped.OpenNamespace(key)` — the key path of the following fields is NOT extended
+  | .ns k => [.ns k]
 /-- the fields of an entry (or of an object), in order -/
 def encList (o : Oracles) (cfg : FCfg) (pre : Bytes) : List Node → List Node
   | [] => []
@@ -84,6 +91,7 @@ def encNodeOld (o : Oracles) (cfg : FCfg) (pre : Bytes) : Node → List Node
     match lookupF cfg (pre ++ k) with
     | none => [.obj k (encListOld o cfg (pre ++ k ++ pathSep) kids)]
     | some f => emitObjOld (applyFilter o f ⟨k, .other objTag⟩) kids
+  | .ns k => [.ns k]
 def encListOld (o : Oracles) (cfg : FCfg) (pre : Bytes) : List Node → List Node
   | [] => []
   | n :: r => encNodeOld o cfg pre n ++ encListOld o cfg pre r
@@ -101,19 +109,23 @@ def nodeStrings : Node → List Bytes
     | .arr l => k :: l
     | _ => [k]
   | .obj k kids => k :: listStrings kids
+  | .ns k => [k]
 def listStrings : List Node → List Bytes
   | [] => []
   | n :: r => nodeStrings n ++ listStrings r
 end
 
 mutual
-/-- the tree as (full path, value) pairs; an object contributes its own path with `.other objTag` -/
-def flatNode (pre : Bytes) : Node → List (Bytes × FVal)
-  | .leaf k v => [(pre ++ k, v)]
-  | .obj k kids => (pre ++ k, .other objTag) :: flatList (pre ++ k ++ pathSep) kids
-def flatList (pre : Bytes) : List Node → List (Bytes × FVal)
+/-- the entry as the wrapped encoder renders it: the fields after a namespace become an object -/
+def nestNode : Node → Node
+  | .leaf k v => .leaf k v
+  | .obj k kids => .obj k (nestList kids)
+  | .ns k => .ns k
+def nestList : List Node → List Node
   | [] => []
-  | n :: r => flatNode pre n ++ flatList pre r
+  | .ns k :: r => [.obj k (nestList r)]
+  | .leaf k v :: r => .leaf k v :: nestList r
+  | .obj k kids :: r => .obj k (nestList kids) :: nestList r
 end
 
 end CaddyModel.C20
